@@ -411,7 +411,8 @@ func c04RunProxy(in *c04In) Result {
 			hadHop = true
 		}
 	}
-	trig := c04Triggers(in, req.Header) // before ServeHTTP: the proxy may mutate req.Header (aliasing)
+	trig := c04Triggers(in, req.Header) // computed before ServeHTTP, on the header map as parsed
+	fixedCl := c04RepairedClasses(in, req.Header)
 	text := "proxy / " + strings.Join(in.Targets, " ") + " {\n" + c04BlockText(in.Dirs)
 	if len(in.Targets) > 1 {
 		text += "  policy round_robin\n"
@@ -486,6 +487,8 @@ func c04RunProxy(in *c04In) Result {
 	}
 	if len(trig) > 0 {
 		sig = "proxy:" + strings.Join(trig, "+")
+	} else if len(fixedCl) > 0 {
+		sig = "proxy:" + strings.Join(fixedCl, "+")
 	}
 	class := "proxy:"
 	switch {
@@ -507,39 +510,47 @@ func c04RunProxy(in *c04In) Result {
 
 var c04HopNames = []string{"Connection", "Keep-Alive", "Proxy-Authenticate", "Proxy-Authorization", "Proxy-Connection", "Te", "Trailer", "Transfer-Encoding", "Upgrade", "Alt-Svc", "Alternate-Protocol"}
 
-// c04Triggers lists the input conditions under which the unchanged tree is known to deviate from
-// the property (each is one known finding); reqHdr is the header map net/http parsed.
+// c04Triggers lists the input conditions under which the tree is known to deviate from the
+// property (each is one OPEN known finding); reqHdr is the header map net/http parsed. All proxy-case
+// findings (F-C04-1..5) are repaired: none is left, see c04RepairedClasses.
 func c04Triggers(in *c04In, reqHdr http.Header) []string {
+	return nil
+}
+
+// c04RepairedClasses names the input classes of REPAIRED findings (status "fixed" in
+// known_findings.json; witnesses in corpus/C04). They exempt nothing and do not restrict the
+// generator: they only label Sig, so that a regression is reported under the class it belongs to.
+func c04RepairedClasses(in *c04In, reqHdr http.Header) []string {
 	var t []string
-	hadHop := false
-	emptyFirstHop := false
-	for _, h := range c04HopNames {
-		if vv, ok := reqHdr[h]; ok {
-			hadHop = true
-			if len(vv) > 0 && vv[0] == "" {
-				emptyFirstHop = true
-			}
-		}
-	}
 	if in.Fails > 0 && in.Retry && c04NonIdempotent(in) {
-		t = append(t, "retry:rewrite-reapplied")
+		t = append(t, "retry:rewrite-reapplied") // F-C04-4
 	}
 	if cv := reqHdr["Connection"]; len(cv) >= 2 && c04LaterConnNames(cv, reqHdr) {
-		t = append(t, "request:second-connection-line")
+		t = append(t, "request:second-connection-line") // F-C04-1
 	}
-	if emptyFirstHop {
-		t = append(t, "request:hop-header-empty-first-value")
+	for _, h := range c04HopNames {
+		if vv, ok := reqHdr[h]; ok && len(vv) > 0 && vv[0] == "" {
+			t = append(t, "request:hop-header-empty-first-value") // F-C04-2
+			break
+		}
 	}
 	if rc := c04Lines(in.RHdr)["Connection"]; len(rc) >= 2 && c04LaterConnNames(rc, c04Lines(in.RHdr)) {
-		t = append(t, "response:second-connection-line")
+		t = append(t, "response:second-connection-line") // F-C04-3
+	}
+	hadHop := false
+	for _, h := range c04HopNames {
+		if _, ok := reqHdr[h]; ok {
+			hadHop = true
+		}
 	}
 	if c04AliasSensitive(in, hadHop) {
-		t = append(t, "request:placeholder-reads-mutated-headers")
+		t = append(t, "request:placeholder-reads-mutated-headers") // F-C04-5
 	}
 	return t
 }
 
-// a later Connection line names a header that is present (only the first line is honoured by the code)
+// a later Connection line names a header that is present (before the repair of F-C04-1/F-C04-3 only
+// the first line was honoured)
 func c04LaterConnNames(vals []string, h http.Header) bool {
 	for _, v := range vals[1:] {
 		for _, f := range strings.Split(v, ",") {
@@ -555,7 +566,8 @@ func c04LaterConnNames(vals []string, h http.Header) bool {
 	return false
 }
 
-// does re-running the director / the rules on the already rewritten request change it?
+// would re-running the director / the rules on an already rewritten request change it? (before the
+// repair of F-C04-4 a retry did just that)
 func c04NonIdempotent(in *c04In) bool {
 	for _, a := range in.Targets {
 		u, err := url.Parse(a)
@@ -573,7 +585,8 @@ func c04NonIdempotent(in *c04In) bool {
 
 // header_upstream/header_downstream values that read a request header the proxy itself rewrites
 // (X-Forwarded-For, Authorization from the upstream URL, or a header targeted by another
-// header_upstream rule) while outreq.Header aliases r.Header (no hop-by-hop header was removed)
+// header_upstream rule) in a request without hop-by-hop header (before the repair of F-C04-5
+// outreq.Header then shared the map of r.Header and the placeholder read the rewritten value)
 func c04AliasSensitive(in *c04In, hadHop bool) bool {
 	if hadHop {
 		return false
@@ -844,10 +857,11 @@ func c04RunWire1(in *c04In) (Result, bool) {
 	sig := "wire:relay"
 	respConn := c04Lines(in.RHdr)["Connection"]
 	if len(respConn) >= 2 && c04LaterConnNames(respConn, c04Lines(in.RHdr)) {
-		sig = "wire:response:second-connection-line"
+		sig = "wire:response:second-connection-line" // class of the repaired F-C04-3 (label only)
 	}
 	if len(in.RAnn) == 0 && len(in.RTrailers) > 0 && in.RBodyLen <= 2048 {
-		// the front response is not chunked yet when the proxy learns about the trailers
+		// the front response is not chunked yet when the proxy learns about the trailers: class of
+		// the repaired F-C04-6 (label only; the proxy now flushes before setting such trailers)
 		sig = "wire:response:unannounced-trailers-short-body"
 	}
 	looksFine := rerr == nil && len(got) == len(rb) && len(s.Body) == len(body) && resp.StatusCode == in.RStatus
@@ -1080,7 +1094,7 @@ func c04GenProxy1(r *Rand) *c04In {
 		in.Retry = r.Chance(80)
 		in.FailAfterRead = len(in.Targets) > 1 && r.Bool()
 		if r.Chance(65) {
-			// configuration on which re-running the rewrite is harmless: isolates body re-sending
+			// configuration on which re-running the rewrite would be harmless: isolates body re-sending
 			for i := range in.Targets {
 				in.Targets[i] = fmt.Sprintf(c04TargetPool[r.Intn(2)], i)
 			}
